@@ -189,6 +189,8 @@ func TestVerifBoundedC02(t *testing.T) {
 		`a`, `(a)`, `(a|b)+`, `((a)(b))`, `(a(b(c)?)?)?`, `v[0-9]+(\.[0-9]+(\.[0-9]+)?)?`, `[(]a[)]`, `[]()]`, `[^]()]`, `[a\]()]`,
 		`\(a\)`, `\\(a)`, `(?i)a`, `(?i)(a)`, `(?i)((a))`, `\Q(\E`, `\Q(a)\E(b)`, `a)(b`, `(a`, `a)`, `()`, `(())`, `(|a)`, `(a)*(b)*`,
 		`[[:alpha:]](a)`, `(\()`, `(\))`, `([)])`, `a{2}(b){2}`, `(?s)(.)`, `(?U)(a+)`, `(?P`, `(?`, `(?i`, `(?i)`, `\`, `(a\`, `[`, `[(`, `(.*) (.*)`,
+		// top-level alternation, also between groups (an expression that starts with '(' and ends with ')' need not be one group)
+		`a|b`, `(a)|(b)`, `(a)|b`, `a|(b)`, `(a|b)|(c)`, `(ab)|(ba)`, `(a)(b)|(c)`, `(a)|(b)|(c)`, `(a)b(c)`, `(a)?|(b)+`,
 	}
 
 	if in := os.Getenv("VERIF_REPLAY_INPUT"); in != "" {
